@@ -43,7 +43,7 @@ ErrLike(r) == r \in {"Error", "FOREIGN"}
 
 -----------------------------------------------------------------------------
 (* kind "prog" *)
-ProgInit(c) == Init0(c.lvl, FALSE, [n \in {c.f} |-> Field(c.dt, "valid", 1)])
+ProgInit(c) == Init0(c.lvl, FALSE, [n \in {c.f} |-> Field(c.dt, c.init, 1)])   \* init: "valid" / "absent"
 Matching(s, op, e) ==
   {o \in Step(s, op) : /\ o.res = e.res
                        /\ (op.k = "str" => o.mark = e.mark)
